@@ -24,6 +24,8 @@ def bounds(tier):
                      "patches and a refresh of the item's whole neighbourhood)",
             "item": "one representative per (class, width, bit position, mask, duplicate-labels) shape at a symbolic "
                     "position; enums with <= %d labels" % (9 if tier == "quick" else 64),
+            "update sequences": "three updates in a row (the first covering the item), each one of the ranges (5,1) (6,2) (5,3) (7,1) (4,3) with "
+                                "symbolic bytes, on a temperature item at bytes 6-7 with TempUnits at byte 5, and on a word item",
             "observers": "two observers, one of them registered twice, in the item units; every watch/unwatch script "
                          "of <= %d operations over two observers in the observable unit" % (4 if tier == "quick" else 5)}
 
@@ -139,6 +141,49 @@ def notify(sig, async_):
         # nothing but the patched range changed
         sx.check_bytes_equal(new, old, "ntf.prefix-untouched", 0, offset)
         sx.check_bytes_equal(new[offset:offset + n], patch, "ntf.patch-installed")
+    return scenario
+
+
+def update_sequence(sig, async_, steps):
+    """several updates in a row on one structure (any sequence of updates): at every one of them the item notifies iff
+    its stored reading differs between the block before and the block after *that* update.  For a temperature the
+    TempUnits byte sits next to it, so that updates may switch the unit between two updates of the reading."""
+    def scenario(sx):
+        from geckolib.driver import GeckoStructure, GeckoAsyncStructure
+        from sx.core import Ite
+        sigs, reps = c02.signatures()
+        a0 = reps[sig]
+        st = GeckoAsyncStructure(None, None) if async_ else GeckoStructure(None)
+        old = sx.block("old", 1024)
+        st.set_status_block(old)
+        acc = copy.copy(a0)
+        acc._observers = []
+        acc.struct = st
+        acc.pos = 6
+        st.accessors = {"item": acc}
+        if type(a0).__name__ == "GeckoTempStructAccessor":
+            tu = copy.copy(_tempunits())
+            tu._observers = []
+            tu.struct = st
+            tu.pos = 5
+            st.accessors["TempUnits"] = tu
+        calls = []
+        acc.watch(lambda s_, o, n_: calls.append((o, n_)))
+        rec = refmodel.record_of(a0)
+        for k in range(steps):
+            # the unit byte alone, the item alone, both, one byte of the item, a straddling pair
+            # (the first update covers the whole item)
+            ranges = [(5, 1), (6, 2), (5, 3), (7, 1), (4, 3)] if k else [(6, 2), (5, 3)]
+            offset, n = ranges[sx.choice(f"range{k}", len(ranges))]
+            patch = sx.bytes_(f"patch{k}", n)
+            before = st.status_block
+            del calls[:]
+            st.replace_status_block_segment(offset, patch)
+            after = st.status_block
+            changed = refmodel.decoded_differs(rec, before, after, 6)
+            sx.observe(f"calls{k}", len(calls))
+            sx.check(Ite(changed, 1, 0) == len(calls), "ntf.sequence.iff-stored-reading-changed",
+                     lambda: f"update {k}: calls={len(calls)} changed={changed}")
     return scenario
 
 
@@ -268,6 +313,15 @@ def units(tier):
                 continue        # (large label sets: the threaded structure class only; the two classes share the code path)
             yield Unit(f"notify.{'async' if async_ else 'sync'}.{name[4:]}", notify(sig, async_),
                        max_paths=60000, query_timeout_ms=120000, ratio_floats=True)
+    sigs, reps = c02.signatures()
+    temp = sorted((sg for sg in sigs if sg[0] == "GeckoTempStructAccessor"), key=str)[0]
+    word = sorted((sg for sg in sigs if sg[0] == "GeckoWordStructAccessor"), key=str)[0]
+    for async_ in (False, True):
+        yield Unit(f"update-sequence.{'async' if async_ else 'sync'}.word", update_sequence(word, async_, 3),
+                   max_paths=200000)
+        for r1 in range(5):
+            yield Unit(f"update-sequence.{'async' if async_ else 'sync'}.temp.{r1}", update_sequence(temp, async_, 3),
+                       max_paths=200000, ratio_floats=True, presets={"range1": r1})
     yield Unit("two-items.sync", two_items(False))
     yield Unit("two-items.async", two_items(True))
     yield Unit("observable", observable(4 if tier == "quick" else 5), validate=True)
